@@ -384,5 +384,8 @@ func coqCase(c *Case) string {
 	if c.Cache == "set" {
 		cache = "CSet"
 	}
+	if c.Cache == "shared" {
+		cache = "CShared"
+	}
 	return fmt.Sprintf("Case %d (%s) %d%%N %s\n    %s\n    %s %s", c.ID, coqBody(c), c.CtxTTL, cache, clist(tab), clist(chunks), err)
 }
